@@ -11,6 +11,7 @@
 (*                                                                         *)
 (* Operators: DecodeBinary(bs)  canonical binary form  (UnmarshalBinary)   *)
 (*            DecodeNetwork(bs) element of an RLP list (DecodeRLP)         *)
+(*            DecodeTxList(bs)  RLP list of transactions, EncodeTxList     *)
 (*            Marshal(tx), EncodeNetwork(tx), HashPreimage(tx), Size(tx),  *)
 (*            WithoutSidecar(tx)                                           *)
 (* Rejection classes: those of RLP.tla plus "shorttyped" (typed envelope   *)
@@ -97,6 +98,25 @@ DecodeNetwork(b) ==
   ELSE LET r == DecodeTyped(SubSeq(b, 1 + hd.h, hd.h + hd.p)) IN
        IF ~r.ok THEN r ELSE IF hd.h + hd.p # Len(b) THEN Rej({"trailing"}) ELSE r
 
+(* a list of transactions (block body, transaction messages): every element in the       *)
+(* network form                                                                          *)
+RECURSIVE DecTxElems(_, _, _)
+DecTxElems(b, lo, hi) ==
+  IF lo > hi THEN [ok |-> TRUE, txs |-> <<>>]
+  ELSE LET hd == HdrLax(b, lo, hi) IN
+       IF ~hd.ok THEN Rej(IF hd.c = "short" THEN ShortAs ELSE {hd.c})
+       ELSE LET r == DecodeNetwork(SubSeq(b, lo, lo + hd.h + hd.p - 1)) IN
+            IF ~r.ok THEN r
+            ELSE LET rest == DecTxElems(b, lo + hd.h + hd.p, hi) IN
+                 IF ~rest.ok THEN rest ELSE [ok |-> TRUE, txs |-> << r.tx >> \o rest.txs]
+
+DecodeTxList(b) ==
+  LET hd == HdrLax(b, 1, Len(b)) IN
+  IF ~hd.ok THEN Rej(IF hd.c = "short" THEN ShortAs ELSE {hd.c})
+  ELSE IF hd.k # "l" THEN Rej({"type"})
+  ELSE LET r == DecTxElems(b, 1 + hd.h, hd.h + hd.p) IN
+       IF ~r.ok THEN r ELSE IF hd.h + hd.p # Len(b) THEN Rej({"trailing"}) ELSE r
+
 (* ------------------------------ encoding ------------------------------- *)
 WithoutSidecar(tx) == Tx(tx.typ, tx.v, NoSidecar)
 
@@ -108,6 +128,9 @@ Body(tx) ==
 
 Marshal(tx)       == IF tx.typ = 0 THEN Enc(tx.v) ELSE <<tx.typ>> \o Body(tx)
 EncodeNetwork(tx) == IF tx.typ = 0 THEN Enc(tx.v) ELSE EncStr(Marshal(tx))
+RECURSIVE EncodeTxSeq(_)
+EncodeTxSeq(txs)  == IF Len(txs) = 0 THEN <<>> ELSE EncodeNetwork(txs[1]) \o EncodeTxSeq(Tail(txs))
+EncodeTxList(txs) == LET p == EncodeTxSeq(txs) IN EncLen(Len(p), 192) \o p
 (* the hash commits to the envelope without the sidecar *)
 HashPreimage(tx)  == Marshal(WithoutSidecar(tx))
 Size(tx)          == Len(Marshal(tx))
@@ -140,6 +163,7 @@ CanonicalNetwork(b) == LET r == DecodeNetwork(b) IN r.ok => EncodeNetwork(r.tx) 
 FormsAgree(b) == LET r == DecodeBinary(b) IN
                  r.ok => LET n == DecodeNetwork(EncodeNetwork(r.tx)) IN n.ok /\ n.tx = r.tx
 RoundTripTx(tx) == WFTx(tx) => LET r == DecodeBinary(Marshal(tx)) IN r.ok /\ r.tx = tx
+CanonicalList(b)    == LET r == DecodeTxList(b) IN r.ok => EncodeTxList(r.txs) = b
 SidecarFree(tx) == /\ HashPreimage(tx) = HashPreimage(WithoutSidecar(tx))
                    /\ DecodeBinary(HashPreimage(tx)).ok
                    /\ DecodeBinary(HashPreimage(tx)).tx = WithoutSidecar(tx)
